@@ -172,6 +172,10 @@ theorem nextKey_sub (p : Path) (root : Bool) (f : Nat) : ∀ (toks : List Tok), 
         obtain ⟨h1, h2⟩ := ih rest' hu.tail k r key
         exact ⟨fun x hx => List.mem_cons_of_mem _ (List.mem_cons_of_mem _ (h1 x hx)), h2⟩
 
+theorem normTok_plain (p : Path) (ty : Ty) (t : Tok) (rest : List Tok) (ht : plainTok t = true) :
+    normTok p ty t rest = .ok (t, rest) := by
+  cases p <;> cases ty <;> cases t <;> simp_all [normTok, plainTok]
+
 def SubOut {α : Type} (res : Res (α × List Tok)) (inp : List Tok) : Prop :=
   ∀ v r, res = .ok (v, r) → ∀ x ∈ r, x ∈ inp
 
@@ -187,7 +191,7 @@ theorem deTok_step (c : Cfg) (f : Nat)
   intro ty t rest ht hr
   cases ty with
   | ign =>
-    simp only [deTok, skipTok_plain t rest ht]
+    simp only [deTok, normTok_plain _ _ _ _ ht, skipTok_plain t rest ht]
     refine ⟨Rel.refl _, ?_⟩
     intro v r h
     cases hs : skipTok .stream t rest with
@@ -195,7 +199,7 @@ theorem deTok_step (c : Cfg) (f : Nat)
     | ok r' => simp [hs] at h; obtain ⟨_, rfl⟩ := h; exact skipTok_sub _ _ _ _ ht hs
   | opt inner =>
     obtain ⟨h1, h2⟩ := ihT inner t rest ht hr
-    simp only [deTok]
+    simp only [deTok, normTok_plain _ _ _ _ ht]
     constructor
     · rcases h1 with h1 | h1 <;> simp [h1, Rel]
     · intro v r h
@@ -203,7 +207,7 @@ theorem deTok_step (c : Cfg) (f : Nat)
       | error e => simp [hs] at h
       | ok x => obtain ⟨v', r'⟩ := x; simp [hs] at h; obtain ⟨_, rfl⟩ := h; exact h2 v' _ hs
   | any =>
-    simp only [deTok]
+    simp only [deTok, normTok_plain _ _ _ _ ht]
     cases hd : deser c t with
     | prim pr => simp [Rel, SubOut]
     | err e => simp [Rel, SubOut]
@@ -220,7 +224,7 @@ theorem deTok_step (c : Cfg) (f : Nat)
     have hE := ihE et rest [] hr
     cases t with
     | «open» =>
-      simp only [deTok]
+      simp only [deTok, normTok_plain _ _ _ _ ht]
       obtain ⟨h1, h2⟩ := hE
       constructor
       · rcases h1 with h1 | h1 <;> simp [h1, Rel]
@@ -229,16 +233,8 @@ theorem deTok_step (c : Cfg) (f : Nat)
         | error e => simp [hs] at h
         | ok x => obtain ⟨v', r'⟩ := x; simp [hs] at h; obtain ⟨_, rfl⟩ := h; exact h2 v' _ hs
     | rgb col => simp [plainTok] at ht
-    | id n =>
-      have hn : (n == RGB_ID) = false := by simpa [plainTok] using ht
-      simp only [deTok, hn, Bool.and_false]
-      refine ⟨Rel.refl _, ?_⟩
-      intro v r h
-      cases hl : leafOf (.seq et) (deser c (.id n)) with
-      | error e => simp [hl, Except.map] at h
-      | ok s => simp [hl, Except.map] at h; obtain ⟨_, rfl⟩ := h; simp
     | _ =>
-      simp only [deTok]
+      simp only [deTok, normTok_plain _ _ _ _ ht]
       refine ⟨Rel.refl _, ?_⟩
       intro v r h
       revert h
@@ -248,7 +244,7 @@ theorem deTok_step (c : Cfg) (f : Nat)
     have hM := ihM vt false rest [] hr
     cases t with
     | «open» =>
-      simp only [deTok]
+      simp only [deTok, normTok_plain _ _ _ _ ht]
       obtain ⟨h1, h2⟩ := hM
       constructor
       · rcases h1 with h1 | h1 <;> simp [h1, Rel]
@@ -257,7 +253,7 @@ theorem deTok_step (c : Cfg) (f : Nat)
         | error e => simp [hs] at h
         | ok x => obtain ⟨v', r'⟩ := x; simp [hs] at h; obtain ⟨_, rfl⟩ := h; exact h2 v' _ hs
     | _ =>
-      simp only [deTok]
+      simp only [deTok, normTok_plain _ _ _ _ ht]
       refine ⟨Rel.refl _, ?_⟩
       intro v r h
       revert h
@@ -267,19 +263,19 @@ theorem deTok_step (c : Cfg) (f : Nat)
     have hS := ihS fs false false rest (slotsInit fs) hr
     cases t with
     | «open» =>
-      simp only [deTok]
+      simp only [deTok, normTok_plain _ _ _ _ ht]
       exact hS
     | rgb col => simp [plainTok] at ht
     | _ =>
-      simp only [deTok]
+      simp only [deTok, normTok_plain _ _ _ _ ht]
       refine ⟨Rel.refl _, ?_⟩
       intro v r h
       revert h
       generalize leafOf (.struct fs) (deser c _) = q
       cases q <;> simp [Except.map] <;> (intro _ h; subst h; simp)
-  | prop _ => simp [deTok, Rel, SubOut]
+  | prop _ => simp [deTok, normTok_plain _ _ _ _ ht, Rel, SubOut]
   | enum vs =>
-    simp only [deTok]
+    simp only [deTok, normTok_plain _ _ _ _ ht]
     refine ⟨Rel.refl _, ?_⟩
     intro v r h
     revert h
@@ -288,7 +284,7 @@ theorem deTok_step (c : Cfg) (f : Nat)
     cases enumVal vs pr <;> simp [Except.map]
     intro _ h; subst h; simp
   | _ =>
-    simp only [deTok]
+    simp only [deTok, normTok_plain _ _ _ _ ht]
     refine ⟨Rel.refl _, ?_⟩
     intro v r h
     revert h
